@@ -113,7 +113,7 @@ pub const RIGHTS_LINES: &[(&str, &str)] = &[
     ("r3k2r/pppq1ppp/2npbn2/2b1p3/2B1P3/2NPBN2/PPPQ1PPP/R3K2R w KQkq - 0 1", "h1g1 h8g8 g1h1 g8h8"),
     ("r3k2r/pppq1ppp/2npbn2/2b1p3/2B1P3/2NPBN2/PPPQ1PPP/R3K2R w KQkq - 0 1", "e1f1 e8f8 f1e1 f8e8"),
     ("r3k2r/pppq1ppp/2npbn2/2b1p3/2B1P3/2NPBN2/PPPQ1PPP/R3K2R w KQkq - 0 1", "a1b1 a8b8 b1a1 b8a8"),
-    ("r3k2r/1P6/8/8/8/8/6p1/R3K2R w KQkq - 0 1", "b7a8q g2h1q"),
+    ("r3k2r/1P6/8/8/8/8/6p1/R3K2R w KQkq - 0 1", "b7a8n g2h1n"),
     ("r3k2r/8/8/8/3b4/8/8/R3K2R b KQkq - 0 1", "d4a1 h1g1 a1d4 g1h1"),
 ];
 
